@@ -165,8 +165,10 @@ static void hmac(void)
               cmpo(A ? "hmaca:incremental-chunked" : "hmac:incremental-chunked", o, e, 32, "keylen/msglen/split", kl, ml, i1, 0); }
             {   /* reinit of an object keyed with another key of another length class, with pending input */
                 uint8_t k2[80]; for (int i = 0; i < 80; i++) k2[i] = (uint8_t)(0x3c + i); size_t k2l = (size_t)((kl + ml) % 3 == 0 ? 5 : (kl + ml) % 3 == 1 ? 64 : 70); memset(o, 0xAA, 32);
-                if (A) { ascon_hmaca_state_t s; ascon_hmaca_init(&s, k2, k2l); ascon_hmaca_update(&s, msg, 13); ascon_hmaca_reinit(&s, key, kl); ascon_hmaca_update(&s, msg, ml); ascon_hmaca_finalize(&s, key, kl, o); ascon_hmaca_free(&s); }
-                else { ascon_hmac_state_t s; ascon_hmac_init(&s, k2, k2l); ascon_hmac_update(&s, msg, 13); ascon_hmac_reinit(&s, key, kl); ascon_hmac_update(&s, msg, ml); ascon_hmac_finalize(&s, key, kl, o); ascon_hmac_free(&s); }
+                /* the past: 0, 3, 8, 13, 16, 40 or 64 bytes of an unfinished message (whole blocks included), or a finalised computation */
+                static const size_t pends[7] = {0, 3, 8, 13, 16, 40, 64}; size_t pend = pends[(kl * 5 + (size_t)ml) % 7]; int fin = ((kl + (size_t)ml) % 5) == 4; uint8_t t32[32];
+                if (A) { ascon_hmaca_state_t s; ascon_hmaca_init(&s, k2, k2l); ascon_hmaca_update(&s, k2, pend); if (fin) ascon_hmaca_finalize(&s, k2, k2l, t32); ascon_hmaca_reinit(&s, key, kl); ascon_hmaca_update(&s, msg, ml); ascon_hmaca_finalize(&s, key, kl, o); ascon_hmaca_free(&s); }
+                else { ascon_hmac_state_t s; ascon_hmac_init(&s, k2, k2l); ascon_hmac_update(&s, k2, pend); if (fin) ascon_hmac_finalize(&s, k2, k2l, t32); ascon_hmac_reinit(&s, key, kl); ascon_hmac_update(&s, msg, ml); ascon_hmac_finalize(&s, key, kl, o); ascon_hmac_free(&s); }
                 cmpo(A ? "hmaca:reinit" : "hmac:reinit", o, e, 32, "keylen/msglen/previous-keylen", kl, ml, k2l, 0); }
             hx_free(o); hx_stat("nontrivial", 1);
         }
